@@ -163,3 +163,97 @@ Example c10_refused_clear_leaves_no_trace :
   | Err _ => False
   end.
 Proof. vm_compute. repeat split. Qed.
+
+(* ==== added after the Coq review (REPORT "C10: minor issues" 1 and 3) ====
+   Note on gate_iff and refused_call_is_invisible above: both hold by unfolding - emits is forallb may_write over the
+   hand-written table `path` (transcribed from the method bodies), gstep is "the Section.v step iff allowed, else the
+   identity".  They are statements about the composed MODEL; that the code has this shape is what the tie validates. *)
+From Clikit Require Import Proofs.GateMonoLemmas.
+
+(* monotonicity at the level of the entry points: whatever output / section method emits at verbosity v emits at every
+   verbosity v' >= v of a non-quiet output (every integer v, v'; gate_monotone above is the same for the bare gate) *)
+Theorem emits_monotone : forall k a m q v v' f, (v <= v')%Z ->
+  emits k a m q v f = true -> emits k a m false v' f = true.
+Proof. exact emits_monotone_lemma. Qed.
+Print Assumptions emits_monotone.
+Theorem emits_antitone : forall k a m q v v' f, (v <= v')%Z ->
+  emits k a m false v' f = false -> emits k a m q v f = false.
+Proof. exact emits_antitone_lemma. Qed.
+Print Assumptions emits_antitone.
+Theorem quiet_silences_every_entry_point : forall k a m v f, emits k a m true v f = false.
+Proof. exact emits_quiet_lemma. Qed.
+Print Assumptions quiet_silences_every_entry_point.
+Example emits_monotone_instance :
+  emits KSection true MWriteLine false VERBOSE (Some 3%Z) = true /\ emits KSection true MWriteLine false DEBUG (Some 3%Z) = true /\
+  emits KSection true MWriteLine false NORMAL (Some 3%Z) = false /\
+  emits KOutput false MWriteRaw false VERY_VERBOSE (Some 6%Z) = true /\ emits KOutput false MWriteRaw false VERBOSE (Some 6%Z) = false.
+Proof.
+  assert (emits KSection true MWriteLine false VERBOSE (Some 3%Z) = true) as H by (vm_compute; reflexivity).
+  split; [exact H|]. split; [apply (emits_monotone_lemma _ _ _ false VERBOSE DEBUG _); [vm_compute; discriminate|exact H]|].
+  vm_compute. auto.
+Qed.
+Print Assumptions emits_monotone_instance.
+
+(* ---- the section index of the composed model ----
+   In the code the target of write / overwrite / clear is a SectionOutput OBJECT: "a call on a section that does not exist"
+   cannot be written down, and no IndexError of clikit corresponds to it (the harness keeps the created sections in a Python
+   list and draws indexes below the number created so far; an index beyond it would be an IndexError of the harness's own
+   list, before clikit is entered).  The model totalises it:
+     target o         the section index a call names (none for section());
+     gate_asked o     the index and the flags a call asks the gate with (write: the caller's; overwrite, clear: None);
+     gate_of gs i     uses the `nth` DEFAULT beyond the list: a fresh gate (not quiet, NORMAL);
+     Section.v        returns the state unchanged for an index without section.
+   So on a nonexistent index gstep is the identity and returns Ok - whether the flags would pass the default gate or not: *)
+Theorem gstep_on_nonexistent_section : forall ansi w st gs f o i,
+  target o = Some i -> length st <= i -> length gs <= i -> gstep ansi w st gs f o = Ok (st, gs, f, []).
+Proof. exact gstep_nonexistent_section_lemma. Qed.
+Print Assumptions gstep_on_nonexistent_section.
+Theorem gate_asked_out_of_range_is_the_default : forall gs o i fl, gate_asked o = Some (i, fl) -> length gs <= i ->
+  allowed gs o = may_write false NORMAL fl.
+Proof. exact allowed_out_of_range_lemma. Qed.
+Print Assumptions gate_asked_out_of_range_is_the_default.
+(* UNDER THE IN-RANGE GUARD (the only calls that exist in the code): the gate asked is the one of the section itself, with
+   that section's own quiet / verbosity ... *)
+Theorem gate_asked_is_the_sections_own : forall gs o i fl g, gate_asked o = Some (i, fl) -> nth_error gs i = Some g ->
+  allowed gs o = may_write (g_quiet g) (g_verb g) fl.
+Proof. exact allowed_in_range_lemma. Qed.
+Print Assumptions gate_asked_is_the_sections_own.
+(* ... and the step is: refused iff THAT gate refuses the flags asked, and then the identity (refused_call_is_invisible);
+   otherwise the Section.v step, the settings untouched *)
+Theorem gstep_in_range : forall ansi w st gs f o i fl g so, gate_asked o = Some (i, fl) -> sop_of o = Some so ->
+  nth_error gs i = Some g ->
+  gstep ansi w st gs f o =
+    if may_write (g_quiet g) (g_verb g) fl
+    then do a <- sec_step ansi w st f so; Ok (fst (fst a), gs, snd (fst a), snd a)
+    else Ok (st, gs, f, []).
+Proof. exact gstep_in_range_lemma. Qed.
+Print Assumptions gstep_in_range.
+(* the settings stay parallel to the sections along every run that starts so (every run of the driver starts from [] []),
+   hence "the index names a section" and "the index names a gate" are one condition *)
+Theorem run_keeps_settings_parallel : forall ansi w ops st gs f st' gs' f' es,
+  grun ansi w st gs f ops = Ok (st', gs', f', es) -> length gs = length st -> length gs' = length st'.
+Proof. exact grun_parallel_lemma. Qed.
+Print Assumptions run_keeps_settings_parallel.
+
+(* Instance.  Two sections, the newer one quiet.  In range: the SAME call (write_line MARK, no flags) is performed on
+   section 0 and refused on section 1 - each by its own gate.  Out of range (index 5): write_line with flags VERBOSE (the
+   default gate would refuse) and without flags (it would allow), overwrite, clear, set_quiet: all the identity, all Ok. *)
+Example section_index_instance :
+  match grun true 10 [] [] g_f [GCreate; GCreate; GSetQuiet 1 true] with
+  | Ok (st, gs, f, _) =>
+      length st = 2 /\ length gs = 2 /\
+      allowed gs (GWrite 0 t_mark None true) = true /\ allowed gs (GWrite 1 t_mark None true) = false /\
+      (match gstep true 10 st gs f (GWrite 0 t_mark None true) with
+       | Ok (st', gs', _, es) => map sc_content st' = [[t_mark]; []] /\ gs' = gs /\ es <> [] | Err _ => False end) /\
+      gstep true 10 st gs f (GWrite 1 t_mark None true) = Ok (st, gs, f, []) /\
+      allowed gs (GWrite 5 t_mark (Some VERBOSE) true) = false /\ allowed gs (GWrite 5 t_mark None true) = true /\
+      gstep true 10 st gs f (GWrite 5 t_mark (Some VERBOSE) true) = Ok (st, gs, f, []) /\
+      gstep true 10 st gs f (GWrite 5 t_mark None true) = Ok (st, gs, f, []) /\
+      gstep true 10 st gs f (GOverwrite 5 t_mark) = Ok (st, gs, f, []) /\
+      gstep false 10 st gs f (GOverwrite 5 t_mark) = Ok (st, gs, f, []) /\
+      gstep true 10 st gs f (GClear 5 None) = Ok (st, gs, f, []) /\
+      gstep true 10 st gs f (GSetQuiet 5 true) = Ok (st, gs, f, [])
+  | Err _ => False
+  end.
+Proof. vm_compute. repeat split; try reflexivity. discriminate. Qed.
+Print Assumptions section_index_instance.
